@@ -139,6 +139,18 @@ type c26Action struct {
 	Arg    int    `json:"arg,omitempty"`
 }
 
+// c26RL is the "rate-limit window" script of a host: all-202 until the window
+// is triggered (by the Trigger-th request, or, Trigger 0, by the first request
+// after Stop was called), then 429/503 with Retry-After R seconds for every
+// request until the fake clock has reached (trigger instant + R s), then
+// all-202 for good. A sender that waits out Retry-After on the (fake) clock is
+// therefore always accepted on its second attempt.
+type c26RL struct {
+	Trigger int `json:"trigger"`
+	Status  int `json:"status"`
+	R       int `json:"retry_after_s"`
+}
+
 type c26Dest struct {
 	Host    int    `json:"host"` // index of fake server; <0: unobservable destination
 	HostURL string `json:"-"`
@@ -175,6 +187,7 @@ type c26Plan struct {
 	Peer        bool          `json:"peer"`
 	ExtraHdr    bool          `json:"extra_headers"`
 	HostPrompt  []bool        `json:"host_prompt"`
+	RateLimit   []*c26RL      `json:"rate_limit"`
 	Scripts     [][]c26Action `json:"-"`
 	Palette     []string      `json:"palette"`
 	Dests       []c26Dest     `json:"dests"`
@@ -247,7 +260,13 @@ func c26Plan_(rng *verifkit.Rand, caseNo int, overhead int, thorough bool) *c26P
 
 	nHosts := rng.Range(1, 3)
 	for h := 0; h < nHosts; h++ {
-		prompt := rng.Chance(0.6)
+		var rl *c26RL
+		// not with 5 MB bodies: a later sub-batch waits for the earlier one's retry
+		if !strings.HasPrefix(p.Profile, "large") && rng.Chance(0.22) {
+			rl = &c26RL{Trigger: verifkit.Pick(rng, 0, 0, 0, 1, 1, 2, 3), Status: verifkit.Pick(rng, 429, 503), R: verifkit.Pick(rng, 1, 5, 20, 45, 59, 59)}
+		}
+		p.RateLimit = append(p.RateLimit, rl)
+		prompt := rng.Chance(0.6) && rl == nil
 		p.HostPrompt = append(p.HostPrompt, prompt)
 		var kinds []string
 		for _, k := range p.Palette {
@@ -729,6 +748,34 @@ type c26Host struct {
 	next   int
 	srv    *httptest.Server
 	conns  *c26Conns
+
+	rl        *c26RL
+	rlN       int
+	rlStarted bool
+	rlEnd     time.Time
+	stopping  bool // Stop has been called (set by the driver)
+}
+
+// rateLimit decides the answer of a rate-limit-window host at the current fake instant.
+func (h *c26Host) rateLimit() c26Action {
+	h.mu.Lock()
+	defer h.mu.Unlock()
+	now := h.clock.Now()
+	h.rlN++
+	if !h.rlStarted && ((h.rl.Trigger == 0 && h.stopping) || (h.rl.Trigger > 0 && h.rlN >= h.rl.Trigger)) {
+		h.rlStarted = true
+		h.rlEnd = now.Add(time.Duration(h.rl.R) * time.Second)
+	}
+	if h.rlStarted && now.Before(h.rlEnd) {
+		return c26Action{Kind: "ratelimit", Status: h.rl.Status, RA: fmt.Sprint(h.rl.R)}
+	}
+	return c26Action{Kind: "ok"}
+}
+
+func (h *c26Host) setStopping() {
+	h.mu.Lock()
+	h.stopping = true
+	h.mu.Unlock()
 }
 
 func (h *c26Host) nextAction() c26Action {
@@ -795,6 +842,9 @@ func (h *c26Host) ServeHTTP(w http.ResponseWriter, r *http.Request) {
 		}
 	}
 	act := h.nextAction()
+	if h.rl != nil {
+		act = h.rateLimit()
+	}
 	rec.Action = act.Kind
 	if act.Status != 0 {
 		rec.Action = fmt.Sprintf("%s:%d:%s", act.Kind, act.Status, act.RA)
@@ -918,7 +968,7 @@ func c26Respond(w http.ResponseWriter, r *http.Request, act c26Action, n int, cl
 		w.Write([]byte("<html>not a batch response{"))
 	case "empty":
 		w.WriteHeader(200)
-	case "http-error", "retry-no-sleep", "retry-sleep":
+	case "http-error", "retry-no-sleep", "retry-sleep", "ratelimit":
 		if act.RA != "" && act.RA != "-" {
 			ra := act.RA
 			if strings.HasPrefix(ra, "@") {
@@ -1058,6 +1108,9 @@ func c26Execute(t *testing.T, p *c26Plan) *c26Outcome {
 	conns := &c26Conns{byLocal: map[string]net.Conn{}}
 	for i := range p.HostPrompt {
 		h := &c26Host{idx: i, clock: clock, t0: t0, log: lg, script: p.Scripts[i], conns: conns}
+		if i < len(p.RateLimit) {
+			h.rl = p.RateLimit[i]
+		}
 		h.srv = httptest.NewServer(h)
 		hosts = append(hosts, h)
 	}
@@ -1137,6 +1190,19 @@ func c26Execute(t *testing.T, p *c26Plan) *c26Outcome {
 			out.pendAtStop[e.ID] = true
 		}
 	}
+	onRL := func(e *c26Event) bool {
+		h := p.Dests[e.Dest].Host
+		return e.Class == "deliverable" && h >= 0 && h < len(p.RateLimit) && p.RateLimit[h] != nil
+	}
+	enqRL := 0
+	for _, e := range p.Events {
+		if onRL(e) {
+			enqRL++
+		}
+	}
+	for _, h := range hosts {
+		h.setStopping()
+	}
 	done := make(chan int, 1)
 	go func() {
 		dt.Stop()
@@ -1166,6 +1232,27 @@ wait:
 				if seen >= r.enqTC {
 					holding = false
 					bo = c26Backoff{}
+					if enqRL > 0 {
+						// Best effort, affects sensitivity only: before fake time jumps, give
+						// the flush to rate-limit-window hosts the chance to arrive and let
+						// the request log settle (a sender that does not wait on the fake
+						// clock retries within microseconds).
+						lim := time.Now().Add(300 * time.Millisecond)
+						for time.Now().Before(lim) && lg.seenCount(func(id string) bool { e := r.byID[id]; return e != nil && onRL(e) }) < enqRL {
+							time.Sleep(100 * time.Microsecond)
+						}
+						for last, quiet := -1, 0; quiet < 3 && time.Now().Before(lim); {
+							lg.mu.Lock()
+							n := len(lg.reqs)
+							lg.mu.Unlock()
+							if n == last {
+								quiet++
+							} else {
+								last, quiet = n, 0
+							}
+							time.Sleep(time.Millisecond)
+						}
+					}
 				} else if time.Now().After(hold) {
 					holding = false
 					r.lost = fmt.Sprintf("flush by Stop: only %d of %d events for prompt hosts arrived within the watchdog", seen, r.enqTC)
@@ -1355,7 +1442,7 @@ func c26ActionClass(actions []string) string {
 	has := map[string]bool{}
 	for _, a := range actions {
 		switch {
-		case strings.HasPrefix(a, "retry-sleep"):
+		case strings.HasPrefix(a, "retry-sleep"), strings.HasPrefix(a, "ratelimit"):
 			has["retry-after-under-60"] = true
 		case strings.HasPrefix(a, "retry-no-sleep"):
 			has["retry-after-60-or-more"] = true
@@ -1592,6 +1679,28 @@ func c26Check(run *verifkit.Run, o *c26Outcome) {
 					witness{Plan: &briefPlan, Event: e, Body: bs})
 			}
 		}
+		// rate-limit-window host: whoever waits out Retry-After is accepted on the
+		// second attempt, so an event that was only ever rejected was written off
+		// although nothing but waiting was asked for
+		if host < len(p.RateLimit) && p.RateLimit[host] != nil {
+			accepted := false
+			var bs []*c26Body
+			for _, h := range hs {
+				bs = append(bs, bodies[h])
+				for _, a := range bodies[h].Actions {
+					accepted = accepted || a == "ok"
+				}
+			}
+			if accepted {
+				run.Count("events_accepted_by_rate_limit_window_hosts", 1)
+			} else if o.pendAtStop[e.ID] {
+				run.Violation("C26/stop/pending-not-sent", "event "+e.ID+" was pending when Stop was called; its batch was only ever sent inside the host's Retry-After window (every attempt rejected) and so never delivered",
+					witness{Plan: &briefPlan, Event: e, Body: bs, Reqs: allReqs()})
+			} else {
+				run.Violation("C26/stop/sleeping-retry-not-sent", "the batch of event "+e.ID+" was only ever sent inside the host's Retry-After window (every attempt rejected, retry did not wait for Retry-After) and so never delivered",
+					witness{Plan: &briefPlan, Event: e, Body: bs, Reqs: allReqs()})
+			}
+		}
 		// Stop clause: every record is written before its exchange ends, so the log at the instant Stop returns is complete
 		if o.hangFallbacks == 0 && !placedAtStop[e.ID] {
 			run.Violation("C26/stop/sent-after-stop-returned", "event "+e.ID+" first reached a server after Stop had returned",
@@ -1710,7 +1819,7 @@ func c26Calibrate(t *testing.T) int {
 func TestVerif_C26(t *testing.T) {
 	run := verifkit.Start(t, "C26", "transmit")
 	defer run.Finish()
-	run.Rule("one case = one scripted run of a real DirectTransmission (fake clock) against 1-3 fake API hosts: PRNG-chosen MaxBatchSize/BatchTimeout/compression/type, 1-4 destinations (host,key,dataset incl. datasets needing URL escaping) plus occasionally an unreachable one, event sizes by profile (small; medium up to 400 KB; large = groups whose body totals land on 5 MB-100KB..5 MB+100KB incl. +-1..5 bytes, single events of 1 MB-1000..1 MB+200000 incl. exactly 1 MB and 1 MB+1; hang = small events with hanging answers in the palette; a hanging answer makes the client's wait time out at once by expiring the read deadline of its connection, no real timeout is used), enqueue steps from 1-4 goroutines, some racing the dispatcher tick, fake-clock advances of 0..2xBatchTimeout split at tick instants, per-host answer scripts drawn from a 0-3 kind fault palette (all-202 json/msgpack, per-event statuses, short/long list, garbage, empty, 400..504, 429/503 with Retry-After absent/0.01/1/59/59.9/60/61/3600/0/-1/HTTP-dates/garbage, hang, connection close), then Stop while events are pending. Non-trivial = at least one request observed; distinct = profile x answer kinds served x {retried, near-5MB body, >1MB event, pending at Stop} x topology")
+	run.Rule("one case = one scripted run of a real DirectTransmission (fake clock) against 1-3 fake API hosts: PRNG-chosen MaxBatchSize/BatchTimeout/compression/type, 1-4 destinations (host,key,dataset incl. datasets needing URL escaping) plus occasionally an unreachable one, event sizes by profile (small; medium up to 400 KB; large = groups whose body totals land on 5 MB-100KB..5 MB+100KB incl. +-1..5 bytes, single events of 1 MB-1000..1 MB+200000 incl. exactly 1 MB and 1 MB+1; hang = small events with hanging answers in the palette; a hanging answer makes the client's wait time out at once by expiring the read deadline of its connection, no real timeout is used), enqueue steps from 1-4 goroutines, some racing the dispatcher tick, fake-clock advances of 0..2xBatchTimeout split at tick instants, per-host answer scripts drawn from a 0-3 kind fault palette (all-202 json/msgpack, per-event statuses, short/long list, garbage, empty, 400..504, 429/503 with Retry-After absent/0.01/1/59/59.9/60/61/3600/0/-1/HTTP-dates/garbage, hang, connection close; some hosts instead run a rate-limit window: 429/503 with Retry-After r in 1..59 s for every request from a trigger - the n-th request or the first request after Stop was called - until the fake clock reaches trigger+r, all-202 otherwise), then Stop while events are pending and senders sleep on Retry-After. Non-trivial = at least one request observed; distinct = profile x answer kinds served x {retried, near-5MB body, >1MB event, pending at Stop} x topology")
 	run.Assume("1 MB = 1,000,000 and 5 MB = 5,000,000 bytes (the Honeycomb API limits the package constants encode); body size is the serialized msgpack body before compression")
 	run.Assume("clockwork.FakeClock is the transmission's only clock for batching and Retry-After sleeps; the real client send timeout (30 s) never fires; a timed-out exchange is one whose httpClient.Do returned a net.Error with Timeout()==true, produced by expiring the connection read deadline")
 	run.Assume("dispatch deadline is checked for hosts whose script never makes a sender sleep or hang (a later sub-batch of a split batch is sent only after the previous one was answered)")
